@@ -29,6 +29,8 @@ type C14Case struct {
 	// Orders are the completion orders of the waves of concurrent opens.
 	Orders [][]int `json:"orders,omitempty"`
 	Frag   []int   `json:"frag,omitempty"`
+	// Instant evaluates a metric query at one instant (start = end, no step) instead of a grid.
+	Instant bool `json:"instant,omitempty"`
 }
 
 const c14Base = int64(1700000000) * 1e9
@@ -167,7 +169,12 @@ func c14Check(c C14Case) (r evid.Result) {
 	if c.Shape == "log-limit" {
 		limit = 1
 	}
-	data, err := dl.Eval(d, query, dl.Params{Start: c14Base, End: c14Base + 10e9, Step: 1e9, Limit: limit})
+	params := dl.Params{Start: c14Base, End: c14Base + 10e9, Step: 1e9, Limit: limit}
+	if c.Instant && c.Shape != "log" && c.Shape != "log-limit" {
+		params = dl.Params{Start: c14Base + 10e9, End: c14Base + 10e9, Step: 0, Limit: limit}
+	}
+	r.Class(params.Step == 0, "instant")
+	data, err := dl.Eval(d, query, params)
 	rep := d.Done()
 
 	r.Class(true, "shape="+c.Shape)
@@ -244,6 +251,7 @@ func c14Gen(t *rapid.T) C14Case {
 		c.Orders = append(c.Orders, rapid.Permutation(identity(n)).Draw(t, "order"))
 	}
 	c.Frag = genFrag(t)
+	c.Instant = rapid.IntRange(0, 2).Draw(t, "instant") == 0
 	return c
 }
 
